@@ -4,6 +4,7 @@
   3. store under /verif/seeded/<seed-id>/ (patch.diff, demo.py, notes.md, meta.json)
 Never leaves /repo modified."""
 import json
+import pathlib
 import os
 import shutil
 import subprocess
@@ -55,6 +56,18 @@ print(json.dumps(res, indent=1))
 if res["demo_clean_rc"] == 0 and res["demo_patched_rc"] == 1:
     d = ROOT / "seeded" / sid
     d.mkdir(parents=True, exist_ok=True)
+    tier = os.environ.get("SEED_TIER", "quick")
+    results = {(c if tier == "quick" else f"{c}@{tier}"): v for c, v in res["checks"].items()}
+    # results of earlier evaluations of the SAME patch are kept (a seed may be caught by another check or by the thorough tier only)
+    try:
+        if (d / "patch.diff").read_text() == pathlib.Path(patch).read_text():
+            old = json.loads((d / "meta.json").read_text()).get("result", {})
+            for k_, v_ in old.items():
+                results.setdefault(k_, v_)
+    except Exception:  # noqa
+        pass
+    res["checks"] = results
+    res["detected"] = any(v["rc"] == 1 and any(l.startswith("VIOLATION") for l in v["lines"]) for v in results.values())
     shutil.copy(patch, d / "patch.diff")
     shutil.copy(demo, d / "demo.py")
     if notes.exists():
@@ -62,7 +75,7 @@ if res["demo_clean_rc"] == 0 and res["demo_patched_rc"] == 1:
     meta = {"property": pid, "needs_to_manifest": (notes.read_text()[:1500] if notes.exists() else ""),
             "confirmed": {"demo_on_clean_tree_rc": 0, "demo_with_patch_rc": 1,
                           "tests": "see seeded/TESTS.md (patches applied together in a scratch worktree, full suite vs BASELINE stable_pass)"},
-            "ran": [f"git -C /repo apply seeded/{sid}/patch.diff; ./check {c} --tier quick; git -C /repo checkout -- ." for c in res["checks"]],
+            "ran": [f"git -C /repo apply seeded/{sid}/patch.diff; ./check {c.split('@')[0]} --tier {c.split('@')[1] if '@' in c else 'quick'}; git -C /repo checkout -- ." for c in res["checks"]],
             "ran_against": f"a scratch git worktree of /repo ({REPO}, same commit as /repo HEAD at the time, selected with VERIF_REPO) with the patch applied and reverted afterwards; "
                            "'ran' is the equivalent command sequence against /repo itself",
             "result": res["checks"], "detected": res["detected"]}
